@@ -5,6 +5,7 @@ CONSTANT J16Max = 4
 CONSTANT J16Len = 1
 CONSTANT YMin = 0
 CONSTANT YMax = 3
+CONSTANT YAll = 3
 INIT Init
 NEXT Next
 INVARIANTS Laws Emit
